@@ -301,7 +301,11 @@ fn main() {
         if let Some((a, b)) = twice {
             let class_ok = a.0 == b.0;
             let obj_ok = (a.1.is_nan() && b.1.is_nan()) || (a.1 - b.1).abs() <= 2.0 * gap_tol(a.1, a.1, 1.0);
-            sink.record(json!({"direct": {"prop": "C05", "ok": class_ok && obj_ok, "what": "the same solver solved twice gives the same verdict and objective", "input": {"label": p.label, "problem": p.to_json(), "bitwise": a.2 == b.2}}}));
+            // with symmetric cones only there is no scaling-strategy switch: default_start
+            // re-initialises every variable, so the second solve must repeat the first bit for bit
+            let symmetric_only = p.cones.iter().all(|c| matches!(c, ZeroConeT(_) | NonnegativeConeT(_) | SecondOrderConeT(_) | PSDTriangleConeT(_)));
+            let bit_ok = !symmetric_only || a.2 == b.2;
+            sink.record(json!({"direct": {"prop": "C05", "ok": class_ok && obj_ok && bit_ok, "what": "the same solver solved twice gives the same verdict and objective (bit-identical iterates for symmetric-cone problems)", "input": {"label": p.label, "problem": p.to_json(), "bitwise": a.2 == b.2, "symmetric_only": symmetric_only}}}));
             bump(&mut stats, if a.2 == b.2 { "second_solve_bitwise_equal" } else { "second_solve_not_bitwise" });
         }
         for v in variants(&mut rng, p) {
